@@ -72,7 +72,8 @@ static void model_case(Case& c) {
     int pestn = odd2p20(rng); config.establishment_probability = pestn / 1048576.0;
     int rr4 = rng.in(0, 8); config.reproductive_rate = rr4 / 4.0;
     int dir = rng.in(0, 7);
-    config.natural_kernel_type = "deterministic neighbor"; config.natural_direction = DIRS[dir];
+    bool overpop_uniform = rng.coin(30);  // the natural kernel type only drives the overpopulation kernel here (the spread kernel is injected)
+    config.natural_kernel_type = overpop_uniform ? "uniform" : "deterministic neighbor"; config.natural_direction = DIRS[dir];
     config.natural_scale = 1; config.natural_kappa = 0; config.anthro_kernel_type = "cauchy"; config.anthro_scale = 1;
     config.anthro_direction = "none"; config.use_anthropogenic_kernel = false; config.dispersal_percentage = 0.9;
     config.dispersal_stochasticity = true;
@@ -82,14 +83,20 @@ static void model_case(Case& c) {
     int thr64 = rng.in(0, 64), leave64 = rng.in(0, 64);
     config.overpopulation_percentage = thr64 / 64.0; config.leaving_percentage = leave64 / 64.0; config.leaving_scale_coefficient = 1;
     bool pool_entry = rng.coin(65);
+    // fixed witnesses of the open findings F18 / F26 (raster entry point) so that they are exercised on every run
+    bool witness_f18 = c.index % 97 == 0, witness_f26 = c.index % 97 == 1;
+    if (witness_f18 || witness_f26) pool_entry = false;
     config.use_mortality = (pool_entry ? rng.coin(50) : rng.coin(12)) && !config.use_overpopulation_movements;
     static const char* mfreq[] = {"year", "month", "every_n_steps", "every_step"};
     config.mortality_frequency = mfreq[rng.in(0, 3)]; config.mortality_frequency_n = (unsigned)rng.in(1, 4);
     int mrate64 = rng.in(0, 64), mlag = rng.in(0, nm - 1);
     config.mortality_rate = mrate64 / 64.0; config.mortality_time_lag = mlag;
+    if (witness_f18) { config.use_overpopulation_movements = false; config.use_mortality = true; config.mortality_frequency = "every_step"; }
     config.use_treatments = pool_entry && rng.coin(45);
     config.use_movements = rng.coin(35);
     config.use_spreadrates = pool_entry ? rng.coin(35) : rng.coin(8); config.spreadrate_frequency = mfreq[rng.in(0, 3)]; config.spreadrate_frequency_n = (unsigned)rng.in(1, 4);
+    if (witness_f26) { config.use_spreadrates = true; config.spreadrate_frequency = "every_step"; config.use_mortality = false; }
+    if (witness_f18) config.use_spreadrates = false;
     config.use_quarantine = rng.coin(35); config.quarantine_frequency = mfreq[rng.in(0, 3)]; config.quarantine_frequency_n = (unsigned)rng.in(1, 4);
     config.quarantine_directions = "";
     bool use_weather = rng.coin(50);
@@ -155,15 +162,22 @@ static void model_case(Case& c) {
     SpreadRateAction<MMulti, int> spread_rate(multi, rows, cols, config.ew_res, config.ns_res, 40);
     Treatments<MPool, DRaster> treatments(config.scheduler());
     int ntreat = 0;
+    std::ostringstream tlist;
     if (config.use_treatments) {
         ntreat = rng.in(1, 3);
         for (int k = 0; k < ntreat; k++) {
-            DRaster map(rows, cols, 0.0);
-            for (int a = 0; a < rows; a++) for (int b = 0; b < cols; b++) { int k64 = rng.coin(25) ? 0 : (rng.coin(25) ? 64 : rng.in(1, 63)); map(a, b) = k64 / 64.0; }
+            DRaster map(rows, cols, 0.0); std::ostringstream cs;
+            for (int a = 0; a < rows; a++) for (int b = 0; b < cols; b++) { int k64 = rng.coin(25) ? 0 : (rng.coin(25) ? 64 : rng.in(1, 63)); map(a, b) = k64 / 64.0; cs << "," << rat64(k64); }
             unsigned stp = (unsigned)rng.in(0, (int)nsteps - 1);
             Date d = config.scheduler().get_step(stp).start_date();
             int days = rng.coin(50) ? 0 : rng.in(20, 90);
-            err_kind([&] { treatments.add_treatment(map, d, days, rng.coin(35) ? TreatmentApplication::AllInfectedInCell : TreatmentApplication::Ratio); });
+            bool all = rng.coin(35);
+            std::string te = err_kind([&] { treatments.add_treatment(map, d, days, all ? TreatmentApplication::AllInfectedInCell : TreatmentApplication::Ratio); });
+            if (te.empty()) {
+                Date de(d); de.add_days((unsigned)days);
+                unsigned s0 = config.scheduler().schedule_action_date(d), s1 = days ? config.scheduler().schedule_action_date(de) : s0;
+                tlist << " " << (days ? "pesticide" : "simple") << ":" << (all ? "all_infected_in_cell" : "ratio") << ":" << s0 << ":" << s1 << cs.str();
+            }
         }
     }
     out << "hp.begin " << (sei ? "SEI" : "SI") << " " << latency << " " << rows << " " << cols << "\n";
@@ -175,6 +189,7 @@ static void model_case(Case& c) {
         << " treatments=" << config.use_treatments << " mortality=" << config.use_mortality << ":" << (config.use_mortality ? bits(config.mortality_schedule()) : "-")
         << " rates=" << config.use_spreadrates << ":" << sched(config.use_spreadrates, &Config::spread_rate_schedule)
         << " quarantine=" << config.use_quarantine << ":" << sched(config.use_quarantine, &Config::quarantine_schedule) << " => ok\n";
+    out << "hp.treatlist -1" << tlist.str() << " => ok\n";
     stats.add(sei ? "cases_sei" : "cases_si"); stats.add(pool_entry ? "entry_pools" : "entry_rasters");
     stats.add("steps", nsteps);
     // hook: print the state after every action
@@ -209,7 +224,7 @@ static void model_case(Case& c) {
             out << "\n";
             outside_seen = outside.size(); stats.add("dispersers_total", (long)klog.targets.size());
         } else if (a == "overpopulation") {
-            out << "hp.overpop " << rat64(thr64) << " " << rat64(leave64) << " " << DROW[dir] << " " << DCOL[dir] << " => - " << h.snapshot() << " |";
+            out << "hp.overpop " << rat64(thr64) << " " << rat64(leave64) << " " << (overpop_uniform ? std::string("U U") : std::to_string(DROW[dir]) + " " + std::to_string(DCOL[dir])) << " => - " << h.snapshot() << " |";
             for (size_t k = outside_seen; k < outside.size(); k++) out << " " << std::get<0>(outside[k]) << "," << std::get<1>(outside[k]);
             out << "\n"; outside_seen = outside.size();
         } else if (a == "movement") {
@@ -217,6 +232,8 @@ static void model_case(Case& c) {
             for (size_t k = 0; k < movements.size(); k++) out << " " << config.movement_schedule[k] << ":" << movements[k][0] << "," << movements[k][1] << "," << movements[k][2] << "," << movements[k][3] << "," << movements[k][4];
             out << " => " << idx << " " << h.snapshot() << "\n";
             last_index_seen = (unsigned)idx;
+        } else if (a == "treatments") {
+            out << "hp.manage " << step << " => - " << h.snapshot() << "\n";
         } else {
             out << "hp.after " << a << " " << step << " " << idx << " => - " << h.snapshot() << "\n";
         }
@@ -240,6 +257,11 @@ static void model_case(Case& c) {
         else
             e = err_kind([&] { model.run_step((int)step, h.i, h.s, total_pop, h.th, dispersers, established, h.te, h.e, h.m, h.died, temperatures, survival_rates, h.r, outside, quarantine, quarantine_areas, movements, network, h.suitable); });
         est.script.clear();
+        if (use_soils && e.empty()) {
+            out << "hp.soilstate " << step << " " << (config.spread_schedule()[step] ? 1 : 0) << " =>";
+            for (int x = 0; x < rows; x++) for (int y2 = 0; y2 < cols; y2++) { out << " "; for (size_t k = 0; k < soil_rasters.size(); k++) out << (k ? "," : "") << soil_rasters[k](x, y2); }
+            out << "\n";
+        }
         out << "hp.plan " << step << " => " << (e.empty() ? "ok" : e) << " " << (trace.empty() ? "-" : trace) << "\n";
         if (!e.empty()) { threw = true; stats.add("step_threw"); }
     }
